@@ -5,6 +5,7 @@
 package main
 
 import (
+	"regexp"
 	"bytes"
 	"encoding/json"
 	"flag"
@@ -253,6 +254,29 @@ func instrumentPkg(p listPkg, exports map[string]string, targets map[string]bool
 			fatal("print %s: %v", p.GoFiles[i], err)
 		}
 		outb := buf.Bytes()
+		// time.Sleep, sync.OnceValue, ... are replaced by calls into the runtime: if that was the
+		// file's only use of the package, its import is left unused and the copy does not compile
+		for _, imp := range af.Imports {
+			if imp.Name != nil {
+				continue
+			}
+			var name, keep string
+			switch imp.Path.Value {
+			case `"time"`:
+				name, keep = "time", "time.Sleep"
+			case `"sync"`:
+				name, keep = "sync", "sync.NewCond"
+			default:
+				continue
+			}
+			body := outb
+			if i := bytes.Index(body, []byte("\n)\n")); i >= 0 && bytes.Contains(body[:i], []byte("import (")) {
+				body = body[i:]
+			}
+			if !regexp.MustCompile(`\b` + name + `\.[A-Za-z]`).Match(body) {
+				outb = append(outb, []byte("\nvar _ = "+keep+" // keeps the import used after instrumentation\n")...)
+			}
+		}
 		// go/printer "repairs" build constraints: a file that only has `// +build go1.12` comes
 		// back with a `//go:build go1.12` line as well. That line is not harmless: since Go 1.21
 		// a //go:build version constraint sets the *language version of the file* (loop
